@@ -55,6 +55,91 @@ theorem value_computed_once_obligation :
 imports (D7). -/
 theorem self_contained_obligation : Einx.Extracted.compileFCfg.bindResult = true := by decide
 
+/-- **Obligation for "the text is executable"**: the generator of fresh variable names refuses every lowercase Python
+keyword and every name that a variable carries as a hint (`np`, `op`, `const1`, …).  On a tree without the filter the
+45th generated name is `as` and the text of any operation with 45 variables does not compile (found while proving
+`fuse_produces_safe`; fixed in /repo). -/
+theorem extracted_names_filtered :
+    Einx.Extracted.compileFCfg.skipReserved = true ∧
+    ∀ k ∈ ["and", "as", "assert", "async", "await", "break", "class", "continue", "def", "del", "elif", "else", "except", "finally",
+           "for", "from", "global", "if", "import", "in", "is", "lambda", "nonlocal", "not", "or", "pass", "raise", "return", "try",
+           "while", "with", "yield"], k ∈ Einx.Extracted.compileFCfg.nameKeywords := by decide
+
+/-- `next(names)` never yields a refused word, and the generator advances. -/
+theorem nextName_not_refused (bad : List String) (fuel i : Nat) (s : String) (j : Nat)
+    (h : nextName bad fuel i = some (s, j)) : bad.contains s = false ∧ i < j := by
+  induction fuel generalizing i with
+  | zero => simp [nextName] at h
+  | succ fuel ih =>
+    unfold nextName at h
+    split at h
+    · have := ih (i + 1) h
+      exact ⟨this.1, by omega⟩
+    · rename_i hb
+      simp only [Option.some.injEq, Prod.mk.injEq] at h
+      obtain ⟨rfl, rfl⟩ := h
+      exact ⟨by simpa using hb, by omega⟩
+
+/-- Every name `assignNames` gives to a group is the group's single hint, or a generated name that is not refused (in
+particular, with the extracted filter: no keyword, no hinted name), or the out-of-fuel marker `?` (never observed: the
+fuel `bad.length + 1` exceeds the number of refused words). -/
+theorem assignNames_names_ok (grp : List Nat) (hints : List (Nat × String)) (bad : List String) :
+    ∀ p ∈ assignNames grp hints bad, p.2 ∈ hints.map (·.2) ∨ bad.contains p.2 = false ∨ p.2 = "?" := by
+  unfold assignNames
+  generalize dedupeNat grp = reps
+  suffices H : ∀ (acc : List (Nat × String) × Nat),
+      (∀ p ∈ acc.1, p.2 ∈ hints.map (·.2) ∨ bad.contains p.2 = false ∨ p.2 = "?") →
+      ∀ p ∈ (reps.foldl (fun (acc : List (Nat × String) × Nat) r =>
+        let members := (grp.zipIdx).filterMap (fun (gid, v) => if gid == r then some v else none)
+        let hs := hints.filterMap (fun (v, h) => if members.contains v then some h else none)
+        match hs with
+        | [h] => (acc.1 ++ [(r, h)], acc.2)
+        | _ =>
+          match nextName bad (bad.length + 1) acc.2 with
+          | some (nm, i) => (acc.1 ++ [(r, nm)], i)
+          | none => (acc.1 ++ [(r, "?")], acc.2)) acc).1,
+        p.2 ∈ hints.map (·.2) ∨ bad.contains p.2 = false ∨ p.2 = "?" by
+    exact H ([], 0) (by simp)
+  induction reps with
+  | nil => intro acc h; simpa using h
+  | cons r reps ih =>
+    intro acc hacc
+    simp only [List.foldl_cons]
+    apply ih
+    intro p hp
+    split at hp
+    · rename_i h hs
+      simp only [List.mem_append, List.mem_singleton] at hp
+      rcases hp with hp | rfl
+      · exact hacc p hp
+      · left
+        have : h ∈ hints.filterMap (fun (v, h) => if ((grp.zipIdx).filterMap (fun (gid, v) => if gid == r then some v else none)).contains v then some h else none) := by
+          rw [hs]; simp
+        rw [List.mem_filterMap] at this
+        obtain ⟨⟨v, h'⟩, hm, hv⟩ := this
+        simp only at hv
+        split at hv
+        · simp only [Option.some.injEq] at hv
+          subst hv
+          exact List.mem_map.mpr ⟨(v, h'), hm, rfl⟩
+        · simp at hv
+    · split at hp
+      · rename_i nm i hn
+        simp only [List.mem_append, List.mem_singleton] at hp
+        rcases hp with hp | rfl
+        · exact hacc p hp
+        · right; left; exact (nextName_not_refused bad _ _ nm i hn).1
+      · simp only [List.mem_append, List.mem_singleton] at hp
+        rcases hp with hp | rfl
+        · exact hacc p hp
+        · right; right; rfl
+
+/-- Non-vacuity / witness: the 45th candidate of `names()` is the keyword `as`; with the extracted filter `next(names)` skips
+it (and a hinted `c`), without a filter it is handed out. -/
+example : nameAt 44 = "as" ∧ nextName (badNames Einx.Extracted.compileFCfg [(2, "c")]) 40 44 = some ("at", 46) ∧
+          nextName (badNames Einx.Extracted.compileFCfg [(2, "c")]) 40 2 = some ("d", 4) ∧ nextName [] 1 44 = some ("as", 45) := by
+  refine ⟨by decide, ?_, ?_, by decide⟩ <;> simp [nextName, badNames, Einx.Extracted.compileFCfg, nameAt, nameAtAux, nameDigits] <;> decide
+
 /-- **Obligation for operator applications**: a unary operator application is emitted inside parentheses, like a binary
 one.  Fails on a tree that prints `-(x)`, where a following attribute/item access binds tighter than the operator. -/
 theorem unary_operator_obligation : Einx.Extracted.compileUCfg.unaryParens = true := by decide
@@ -78,7 +163,7 @@ def usageOf (cfg : UCfg) (g : Graph) (t : Nat) : Option Nat :=
 
 /-- (pure operations executed by the emitted statements, operations of the graph, number of variables) -/
 def opsSummary (cfg : UCfg) (g : Graph) : Option (Nat × Nat × Nat) :=
-  match compile cfg ⟨true, true, false⟩ g with
+  match compile cfg { checkLater := true, checkBlock := true, bindResult := false } g with
   | .ok c => some (progOps c.st.program, refOps g c.order, c.st.vars.length)
   | .error _ => none
 
@@ -560,7 +645,7 @@ example :
     fuseSafe (fun _ => 0) [.assign 1 (E.mk .call [.lit "f", .var 0]) true, .return_ (E.mk .tuple [.var 0, .var 1])] = false := by decide
 
 /-- The D6 witness is a real compilation: traversal, scopes, names and text are all exercised. -/
-example : (match compile UCfg.pinned ⟨true, true, false⟩ d6Graph with
+example : (match compile UCfg.pinned { checkLater := true, checkBlock := true, bindResult := false } d6Graph with
     | .ok c => some (c.order, c.grp, fuseSafe (fun v => c.grp[v]?.getD v) c.st.program)
     | .error _ => none) = some ([.enter 0, .app 0, .exit 0], [0, 1], true) := by decide
 
@@ -589,11 +674,11 @@ example : (match ctxOf fixedUCfg flatGraph, visitOrder flatGraph with
 
 /-- Hypotheses of `compile_correct` / `compile_correct_compiled(_fused)` on the nested D6 graph and on `flatGraph`:
 `compile` succeeds, the traversal is bracketed, the program is closed and the generator's name groups are `fuseSafe`. -/
-example : (match compile UCfg.pinned ⟨true, true, false⟩ d6Graph with
+example : (match compile UCfg.pinned { checkLater := true, checkBlock := true, bindResult := false } d6Graph with
     | .ok c => some (matched c.order [], liveIn c.st.program, fuseSafe (fun v => c.grp[v]?.getD v) c.st.program, c.st.program.length)
     | .error _ => none) = some (true, [], true, 3) := by decide
 
-example : (match compile fixedUCfg ⟨true, true, true⟩ flatGraph with
+example : (match compile fixedUCfg { checkLater := true, checkBlock := true, bindResult := true } flatGraph with
     | .ok c => some (matched c.order [], liveIn c.st.program, fuseSafe (fun v => c.grp[v]?.getD v) c.st.program, c.st.program.length)
     | .error _ => none) = some (true, [], true, 3) := by decide
 
@@ -609,7 +694,7 @@ example : ({ apps := [.call (.lit "f") [.gref 0] [] [] 0], origin := [some 0],
 
 /-- Hypotheses of `emit_closed`/`compile_correct_wf` on the nested D6 graph: well-formed, `compile` succeeds, and the
 traversal mentions no open graph. -/
-example : d6Graph.WF = true ∧ (match compile fixedUCfg ⟨true, true, true⟩ d6Graph with
+example : d6Graph.WF = true ∧ (match compile fixedUCfg { checkLater := true, checkBlock := true, bindResult := true } d6Graph with
     | .ok c => some (noSelfRef d6Graph c.order [], pendAfter c.order [], c.st.program.length)
     | .error _ => none) = some (true, [], 4) := by decide
 
@@ -642,18 +727,18 @@ def fuseSummary (fc : FCfg) (g : Graph) : Option (String × List Nat × Bool) :=
   | .error _ => none
 
 /-- The hypotheses of `fuse_produces_safe` are met by compilations in which the loop does merge variables. -/
-example : chainGraph.WF = true ∧ fuseSummary ⟨true, true, true⟩ chainGraph =
+example : chainGraph.WF = true ∧ fuseSummary { checkLater := true, checkBlock := true, bindResult := true } chainGraph =
     some ("import numpy as np\na = np.zeros(3)\na = np.exp(a)", [0, 1, 1], true) := by decide
 
-example : nestGraph.WF = true ∧ fuseSummary ⟨true, true, true⟩ nestGraph =
+example : nestGraph.WF = true ∧ fuseSummary { checkLater := true, checkBlock := true, bindResult := true } nestGraph =
     some ("import numpy as np\ndef op(a):\n    a = np.exp(a)\n    a = np.exp(a)\n    return a", [0, 1, 2, 1, 1], true) := by decide
 
 /-- The hypothesis on the filters cannot be dropped: without the later-use filter the loop merges `a` into the result of `exp`
 although `a` is read afterwards (`a = np.exp(a); b = np.add(a, a)`), and the groups are not `fuseSafe`. -/
 example : liveGraph.WF = true ∧
-    fuseSummary ⟨true, true, true⟩ liveGraph =
+    fuseSummary { checkLater := true, checkBlock := true, bindResult := true } liveGraph =
       some ("import numpy as np\na = np.zeros(3)\nb = np.exp(a)\nc = np.add(a, b)", [0, 1, 2, 3], true) ∧
-    fuseSummary ⟨false, true, true⟩ liveGraph =
+    fuseSummary { checkLater := false, checkBlock := true, bindResult := true } liveGraph =
       some ("import numpy as np\na = np.zeros(3)\na = np.exp(a)\nb = np.add(a, a)", [0, 1, 1, 3], false) := by decide
 
 /-- `fuse_text_safe` on the nested example: the inner block (`a = np.exp(a); a = np.exp(a); return a` with the parameter `a` live on
@@ -664,8 +749,8 @@ def textSummary (fc : FCfg) (g : Graph) : Option (List (Bool × Bool)) :=
       (fuseSafe (fun v => c.grp[v]?.getD v) ((c.st.block b).map (·.stmt)), entrySafe (fun v => c.grp[v]?.getD v) ((c.st.block b).map (·.stmt)))))
   | .error _ => none
 
-example : textSummary ⟨true, true, true⟩ nestGraph = some [(true, true), (true, true)] ∧
-    textSummary ⟨true, true, true⟩ liveGraph = some [(true, true)] ∧
-    textSummary ⟨false, true, true⟩ liveGraph = some [(false, true)] := by decide
+example : textSummary { checkLater := true, checkBlock := true, bindResult := true } nestGraph = some [(true, true), (true, true)] ∧
+    textSummary { checkLater := true, checkBlock := true, bindResult := true } liveGraph = some [(true, true)] ∧
+    textSummary { checkLater := false, checkBlock := true, bindResult := true } liveGraph = some [(false, true)] := by decide
 
 end Einx.Compile
